@@ -25,7 +25,7 @@ Fixpoint pairs (ts : list tok) : list header :=
 Definition tail_of (a : accepted) (es : bool) : list N :=
   if es then []
   else match values_of (B "content-length") (headers_of (a_items a)) with
-       | c :: _ => repeat 120%N (N.to_nat (dec_value 0 c))
+       | c :: _ => if (4096 <? dec_value 0 c)%N then [] else repeat 120%N (N.to_nat (dec_value 0 c))
        | [] => B "0" ++ crlf ++ crlf
        end.
 
